@@ -281,7 +281,11 @@ func (e *Engine) structName(t types.Type, st *types.Struct) string {
 	if n, ok := t.(*types.Named); ok {
 		name := n.Obj().Name()
 		if n.Obj().Pkg() != nil {
-			name = n.Obj().Pkg().Name() + "." + name
+			pp := strings.TrimPrefix(n.Obj().Pkg().Path(), "go.opentelemetry.io/otel/")
+			if pp == "go.opentelemetry.io/otel" {
+				pp = "otel"
+			}
+			name = strings.ReplaceAll(pp, "/", "_") + "." + name
 		}
 		if n.TypeArgs() != nil && n.TypeArgs().Len() > 0 {
 			for i := 0; i < n.TypeArgs().Len(); i++ {
@@ -555,6 +559,13 @@ func (e *Engine) getGlobal(st *State, g *ssa.Global) string {
 		return v
 	}
 	t := g.Type().(*types.Pointer).Elem()
+	if gi := e.globalInfo(g); gi != nil && gi.neverStored {
+		// a package variable that no function of its package assigns keeps its zero value
+		switch t.Underlying().(type) {
+		case *types.Array, *types.Basic, *types.Struct:
+			return e.zero(t)
+		}
+	}
 	name := "G." + sanitizeSym(g.Pkg.Pkg.Name()+"."+g.Name())
 	e.sc.Decl("const:"+name, fmt.Sprintf("(declare-const %s %s)", name, e.sortOf(t)))
 	return name
